@@ -177,6 +177,34 @@ func runC10(c *Ctx) error {
 				continue
 			}
 			A, B := ms.nodes[ai], ms.nodes[bi]
+			// now and then routers refuse to build a frame of their own first (a local packet too big for
+			// any frame, an empty message, an appendix beyond the limit): an ordinary event in an honest
+			// mesh that must not touch the frames they relay or receive afterwards
+			if k%3 == 1 {
+				for _, nd := range ms.nodes {
+					if c.Rng.IntN(3) == 0 {
+						continue
+					}
+					other := ms.nodes[c.Rng.IntN(sp.n)].id.IP
+					var msg, apx []byte
+					switch c.Rng.IntN(3) {
+					case 0:
+						msg = randBytes(c, 10001+c.Rng.IntN(50000))
+					case 1:
+						msg = nil
+					default:
+						msg, apx = randBytes(c, 30), randBytes(c, 10001+c.Rng.IntN(500))
+					}
+					var ferr error
+					var ff frame.Frame
+					if pan, _ := recoverPanic(func() { ff, ferr = nd.builder.NewFrameV1(nd.id.IP, other, frame.NetworkTraffic, nil, msg, apx) }); pan {
+						c.Violate("building an oversized frame crashed", "failed-build-crash", map[string]any{"mesh": label, "msg": len(msg), "apx": len(apx)})
+					} else if ferr == nil && ff != nil {
+						ff.ReturnToPool()
+					}
+					c.Count("refused-own-build")
+				}
+			}
 			ms.w.queue = nil
 			notify, _, err := A.ro.PingPong.Send(B.id.IP, false, 0)
 			c.Eval()
